@@ -526,7 +526,7 @@ impl Property for C12 {
         vec![
             "Trusted: the value constructors (Ipv6RawExtHeader::new_raw, IpAuthHeader::new, Ipv6FragmentHeader::new, IpFragOffset::try_new) and the pub fields / payload() / raw_icv() accessors used to move between the model and the crate (their encode/decode fidelity is C08's subject).".into(),
             "Reference semantics of a link (from the struct docs): number 0 refers to the stored hop-by-hop header only as the very first number; 60 refers to destination_options before the routing header was visited and to final_destination_options afterwards; a link whose stored header is absent or already visited ends the walk with that number (Ok if nothing is left unvisited).".into(),
-            "Where several error values would be honest (several unvisited headers, or hop-by-hop named too late plus other unvisited headers) any of them is accepted from next_header(); write() must return the same value as next_header().".into(),
+            "Where several error values would be honest (several unvisited headers, or hop-by-hop named too late plus other unvisited headers) any of them is accepted from next_header() and from write() (the two must fail together; that they name the same one of several simultaneous faults is not demanded - preserving change C12i).".into(),
             "Decoding (clause 4) is only demanded when the chain ends on a number Ipv6Extensions/Ipv4Extensions does not decode itself ({0,43,44,51,60} / {51}).".into(),
             "Writers are Vec<u8> (I/O faults are C16's subject). On a write error nothing is asserted about bytes already emitted.".into(),
             "Ether types compared against the IEEE values 0x0800 / 0x86DD.".into(),
